@@ -48,6 +48,13 @@ var c04Edits = []c04Edit{
 		_, err := d.AddImageFromData(c04NewJPEG, "image1.jpeg", document.ImageFormatJPEG, 4, 2, nil)
 		return d, err
 	}},
+	{name: "AddImageFromData(format bmp: refused)", apply: func(d *document.Document) (*document.Document, error) {
+		// an unsupported format is refused; the refusal must leave the opened package's state alone
+		if _, err := d.AddImageFromData(c04NewPNG, "new.bmp", document.ImageFormat("bmp"), 2, 1, nil); err == nil {
+			return d, fmt.Errorf("an image of the unsupported format bmp was accepted")
+		}
+		return d, nil
+	}},
 	{name: "AddHeader(default)", apply: func(d *document.Document) (*document.Document, error) {
 		return d, d.AddHeader(document.HeaderFooterTypeDefault, "NEWHDR")
 	}},
